@@ -98,7 +98,7 @@ func runHexText(r *hjRec, variant int, rnd *rand.Rand) (string, *fail) {
 	}
 	var hh common.HexHash
 	if err := json.Unmarshal(js, &hh); (err == nil) != r.HexHash || (err == nil && ((hh == nil) != r.Zero || (!r.Zero && !bytes.Equal(hh, want)))) {
-		return s, &fail{r.THash, "hexhash", fmt.Sprintf("HexHash.UnmarshalJSON(%q) = %x (nil=%v), %v; spec ok=%v zero=%v", s, []byte(hh), hh == nil, err, r.HexHash, r.Zero)}
+		return s, &fail{true, "hexhash", fmt.Sprintf("HexHash.UnmarshalJSON(%q) = %x (nil=%v), %v; spec ok=%v zero=%v", s, []byte(hh), hh == nil, err, r.HexHash, r.Zero)}
 	}
 	if r.THash {
 		if out, err := json.Marshal(hh); err != nil || string(out) != string(js) {
